@@ -11,6 +11,7 @@ import (
 	"net/http"
 	"net/http/httptest"
 	"strconv"
+	"strings"
 	"sync"
 	"time"
 
@@ -108,6 +109,8 @@ type vfCapture struct {
 	// ContentLength and TransferEncoding as the server's HTTP stack saw them
 	ContentLength    int64
 	TransferEncoding []string
+	// RequestTarget: the path exactly as it was on the request line / :path (escapes untouched), without the query
+	RequestTarget string
 }
 
 // vfCaptureServer records every request and answers with a canned response.
@@ -122,7 +125,7 @@ func vfStartCaptureServer(respond func(w http.ResponseWriter, r *http.Request, b
 	cs := &vfCaptureServer{byName: map[string][]*vfCapture{}, Respond: respond}
 	handler := http.HandlerFunc(func(w http.ResponseWriter, r *http.Request) {
 		body, _ := io.ReadAll(r.Body)
-		c := &vfCapture{Method: r.Method, Path: r.URL.Path, RawQuery: r.URL.RawQuery, Header: r.Header.Clone(), Body: body, ProtoMajor: r.ProtoMajor, Trailer: r.Trailer.Clone(), ContentLength: r.ContentLength, TransferEncoding: append([]string(nil), r.TransferEncoding...)}
+		c := &vfCapture{Method: r.Method, Path: r.URL.Path, RawQuery: r.URL.RawQuery, Header: r.Header.Clone(), Body: body, ProtoMajor: r.ProtoMajor, Trailer: r.Trailer.Clone(), ContentLength: r.ContentLength, TransferEncoding: append([]string(nil), r.TransferEncoding...), RequestTarget: strings.SplitN(r.RequestURI, "?", 2)[0]}
 		name := r.Header.Get("X-Test-Case-Name")
 		cs.mu.Lock()
 		cs.byName[name] = append(cs.byName[name], c)
